@@ -934,10 +934,23 @@ GO_FORMS = [
 
 def run_go_forms(item):
     """one process per position: every go form in turn; returns list of (form, n_bestmove, move, status, crash)"""
-    fen, forms, via_moves = item
+    fen, forms, via_moves = item[:3]
+    hist = item[3] if len(item) > 3 else None
     out = []
     s = Session()
     try:
+        if hist:
+            # an earlier part of the session: other searches, ended in every possible way (terminal roots included)
+            for l in EXIT_STATES[hist]:
+                if l == "<bestmove>":
+                    wait_bestmove(s, 20.0)
+                elif l.startswith("<sleep "):
+                    time.sleep(float(l[7:-1]))
+                else:
+                    s.send(l)
+            s.send("isready")
+            s.read_until(lambda l: l == "readyok", 10.0)
+            s.drain(0.02)
         for name, cmd, stop_after in forms:
             if not s.alive():
                 s.kill()
@@ -981,29 +994,33 @@ def check_C03(ctx):
     # some positions set by move list
     games = gens.playouts(ctx.rng, [START_FEN], max(3, n // 8), 30)
     items = []
-    for f, cnt in pool:
+    hists = [h for h in EXIT_STATES if not h.startswith("mid-")]
+    for j, (f, cnt) in enumerate(pool):
         forms = GO_FORMS if not ctx.quick else ctx.rng.sample(GO_FORMS, 7)
-        items.append((f, forms, None))
+        # every second position is searched after an earlier part of the session (cycling through all histories)
+        items.append((f, forms, None, hists[(j // 2) % len(hists)] if j % 2 else None))
     for start, steps in games:
         if len(steps) < 5:
             continue
         k = ctx.rng.randint(3, len(steps))
         mvs = [m for m, _ in steps[:k]]
-        items.append((steps[k - 1][1], ctx.rng.sample(GO_FORMS, 5), "position startpos moves " + " ".join(mvs)))
+        items.append((steps[k - 1][1], ctx.rng.sample(GO_FORMS, 5), "position startpos moves " + " ".join(mvs), None))
     results = parallel_map(run_go_forms, items, workers=min(8, infra.NCPU))
     fens = [it[0] for it in items]
     legal = legal_set(fens)
     ctx.co["co_go"] = sum(len(r) for r in results if isinstance(r, list))
-    for (fen, forms, via), res, ls in zip(items, results, legal):
+    for (fen, forms, via, hist), res, ls in zip(items, results, legal):
         if not isinstance(res, list):
             raise RuntimeError(f"session error {res}")
         if not ls:
             continue
+        if hist:
+            ctx.bump("after_history")
         for name, nb, mv, st, crash in res:
             cmd = next(c for n_, c, _ in forms if n_ == name)
             ctx.case(f"{fen}|{name}")
             ctx.bump("form:" + name)
-            lines = [via or f"position {fen}", cmd] + (["stop"] if "stop" in name else [])
+            lines = (EXIT_STATES[hist] if hist else []) + [via or f"position {fen}", cmd] + (["stop"] if "stop" in name else [])
             if st == "slow":
                 ctx.bump("slow_depth_search_stopped")
                 if nb != 1 or mv not in ls:
